@@ -510,37 +510,66 @@ def rule_read_capacity(P, rep):
 
 def rule_crc(P, rep, f, dead):
     """R-C09-4: CRC must-pass-through in state_read_content"""
-    fa = FlagAnalysis(f, flag_names={'crc_checked'})
     rets = f.returns()
     if len(rets) != 1:
         raise AnalysisBroken('state_read_content: expected one return')
-    states = fa.at(rets[0])
-    rep.check(bool(states) and all(s['crc_checked'] == 1 for s in states), 'R-C09-4', 'state_read_content returns only with crc_checked != 0', rets[0].loc(),
-              'possible values of crc_checked at return: %s' % sorted(set(str(s['crc_checked']) for s in states)), function='state_read_content', construct='crc_checked at return')
-    # the only non-zero store into crc_checked is on the equal edge of stored==computed, computed taken before the stored crc is read
-    stores = [i for i in f.all_insts() if i.op == 'store' and f.expr(i.ops[1]) == '&crc_checked' and f.const_of(i.ops[0]) != 0]
-    ok = len(stores) == 1
-    det = '%d setting stores' % len(stores)
-    if ok:
-        s = stores[0]
-        scrc = [c for c in f.calls('scrc')]
-        rd = [c for c in f.calls('sgetble32')]
-        cmpbr = None
-        for b in range(len(f.blocks)):
-            t = f.term(b)
-            if t.op == 'br' and len(t.ops) == 3:
-                ci = f.inst_of(t.ops[0])
-                if ci is not None and ci.op == 'icmp' and {f.expr(ci.ops[0]), f.expr(ci.ops[1])} == {'crc_stored', 'crc_computed'}:
+    # the compare of the stored CRC (out-parameter of the only sgetble32 call) with the computed one (result of scrc), found by value flow
+    scrc = [c for c in f.calls('scrc')]
+    rd = [c for c in f.calls('sgetble32')]
+    if len(scrc) != 1 or len(rd) != 1:
+        raise AnalysisBroken('state_read_content: expected one scrc() and one sgetble32() call (%d, %d)' % (len(scrc), len(rd)))
+    stored = f.strip(rd[0].ops[1])
+    cmpbr = None
+    for b in range(len(f.blocks)):
+        t = f.term(b)
+        if t.op == 'br' and len(t.ops) == 3:
+            ci = f.inst_of(t.ops[0])
+            if ci is not None and ci.op == 'icmp' and ci.pred in ('eq', 'ne'):
+                sides = []
+                for o in ci.ops:
+                    li = f.inst_of(o)
+                    if li is not None and li.op == 'load' and f.strip(li.ops[0]) == stored:
+                        sides.append('stored')
+                    elif ('call', 'scrc') in f.value_sources(o):
+                        sides.append('computed')
+                if sorted(sides) == ['computed', 'stored']:
                     cmpbr = (t, ci)
-        ok = len(scrc) == 1 and len(rd) == 1 and cmpbr is not None
-        if ok:
-            t, ci = cmpbr
-            eq_edge = t.ops[2][1] if ci.pred == 'eq' else t.ops[1][1]
-            ne_edge = t.ops[1][1] if ci.pred == 'eq' else t.ops[2][1]
-            ok = (ci.pred in ('eq', 'ne') and f.edge_dominates(t, eq_edge, s) and ne_edge in dead and f.dominates(scrc[0], rd[0]) and f.dominates(rd[0], t)
-                  and not _reaches_without(f, ne_edge, s.block, -1))
-            det = 'store on the equal edge of %s; mismatch side cannot return; scrc() precedes sgetble32(&crc_stored)' % f.expr(['i', ci.id])
-    rep.check(ok, 'R-C09-4', 'crc_checked is set only after stored == computed', stores[0].loc() if stores else f.file, det, function='state_read_content', construct='crc compare')
+    if cmpbr is None:
+        rep.check(False, 'R-C09-4', 'state_read_content compares the stored CRC with the computed one', f.file, 'no branch compares the value read by sgetble32() with the result of scrc(): the CRC of the content file is never verified', function='state_read_content', construct='crc compare')
+        return
+    t, ci = cmpbr
+    eq_edge = t.ops[2][1] if ci.pred == 'eq' else t.ops[1][1]
+    ne_edge = t.ops[1][1] if ci.pred == 'eq' else t.ops[2][1]
+    cut = {(t.id, eq_edge)}
+    skipping = rets[0].id in f.reach([f.entry()], cut_edges=cut, include_start=True)
+    det = 'every CFG path to the return crosses the equal edge of %s' % f.expr(['i', ci.id])
+    ok = True
+    if skipping:
+        # paths that do not cross the equal edge exist in the CFG (end of file before the CRC record): they must be excluded by a
+        # flag that is set only on the equal edge and tested before the return
+        cands = []
+        for a_ in f.all_insts():
+            if a_.op != 'alloca' or a_.id in f.arg_allocas():
+                continue
+            us = f.users.get(a_.id, ())
+            if not us or not all(u.op == 'load' or (u.op == 'store' and f.strip(u.ops[1]) == ['i', a_.id] and f.const_of(u.ops[0]) is not None) for u in us):
+                continue
+            sets = [u for u in us if u.op == 'store' and f.const_of(u.ops[0]) != 0]
+            if sets and all(f.edge_dominates(t, eq_edge, u) for u in sets):
+                cands.append(a_.id)
+        ok = False
+        det = 'the return is reachable without crossing the equal edge of the CRC compare and no flag set only on that edge guards it'
+        if cands:
+            fa = FlagAnalysis(f, flag_ids=cands)
+            states = fa.at(rets[0])
+            ok = bool(states) and all(any(v == 1 for v in s.values()) for s in states)
+            det = 'flag(s) %s set only on the equal edge; possible values at the return: %s' % ([f.insts[c_].var for c_ in cands], sorted(set(str(tuple(s.values())) for s in states)))
+        if not ok:
+            path = f.find_path(f.entry(), rets[0], cut_edges=cut)
+            det += '; e.g. path through lines %s' % [p_.line for p_ in (path or [])][-8:]
+    rep.check(ok, 'R-C09-4', 'state_read_content returns only after stored CRC == computed CRC', rets[0].loc(), det, function='state_read_content', construct='crc verified at return')
+    ok2 = ne_edge in dead and f.dominates(scrc[0], rd[0]) and f.dominates(rd[0], t)
+    rep.check(ok2, 'R-C09-4', 'CRC mismatch cannot return; the CRC is computed before the stored value is read', t.loc(), 'mismatch edge dead: %s; scrc() precedes sgetble32(): %s' % (ne_edge in dead, f.dominates(scrc[0], rd[0])), function='state_read_content', construct='crc compare')
     # state_read: checked_read only after state_read_content returned
     g = P.fn('state_read')
     rep.analysed(g)
@@ -708,6 +737,15 @@ def rule_save_protocol(ctx, rep):
         br = first_cond_branch(rn, c)
         ok = br is not None and len(br.ops) == 3 and depends_on(rn, br.ops[0], c.id) and (br.ops[2][1] in deadr or br.ops[1][1] in deadr)
         rep.check(ok, 'R-C09-6', 'state_rename_content: rename failure is fatal', c.loc(), '', function='state_rename_content', construct='rename result')
+    # atomic replacement: the published name is only ever replaced by rename(); nothing in the renaming phase deletes / truncates it first
+    # (a crash between the deletion and the rename would leave no content file under that name)
+    DESTROYERS = {'remove', 'unlink', 'truncate', 'ftruncate', 'open', 'fopen', 'sopen_multi_file', 'sopen_write'}
+    rns = list(rn.calls('rename'))
+    for c in rn.calls(DESTROYERS):
+        same = any(rn.expr(c.ops[0]) == rn.expr(r_.ops[1]) for r_ in rns)
+        rep.check(not same, 'R-C09-6', 'state_rename_content: the published content name is replaced only by rename()', c.loc(),
+                  '%s(%s) on a different path' % (c.callee, rn.expr(c.ops[0])[:40]) if not same else '%s(%s) acts on the rename() destination: between it and the rename a crash leaves no content file under that name (non-atomic replacement)' % (c.callee, rn.expr(c.ops[0])[:50]),
+                  function='state_rename_content', construct='destination touched before rename')
     # tmp suffix agreement between writer, verifier and renamer
     sufs = {}
     for fn in (w, vc, rn):
